@@ -67,3 +67,59 @@ Proof.
   cbv zeta. split; [apply valid_utf8b_sound; vm_compute; reflexivity|].
   repeat split; vm_compute; reflexivity.
 Qed.
+
+(* ---------------------------------------------------------------- mstr.CompareNatural *)
+From Mds Require Import Mstr.MstrProofsNat.
+
+(* CompareNatural(a, b), for all byte strings whose digit runs have at most 18 digits (so that
+   parseInt's 64-bit accumulation cannot wrap; the model wraps explicitly beyond): a normal return
+   whose value is the comparison of the token keys of a and b -- maximal digit runs as numbers, every
+   other byte as itself, compared lexicographically with a proper prefix first; tokens of the same
+   kind by value; a number against a byte: at the first token the byte decides (below '0' it sorts
+   before every number, otherwise after), at any later token the number sorts first. *)
+Theorem C20_compare_natural_key : forall a b : list Z, short_runs a -> short_runs b ->
+  compare_natural a b = Ok (key_cmp (key a) (key b)).
+Proof. exact compare_natural_key. Qed.
+Print Assumptions C20_compare_natural_key.
+
+(* hence: result in {-1, 0, 1} *)
+Theorem C20_compare_range : forall a b : list Z, short_runs a -> short_runs b ->
+  exists c, compare_natural a b = Ok c /\ (c = -1 \/ c = 0 \/ c = 1).
+Proof. exact compare_natural_range. Qed.
+Print Assumptions C20_compare_range.
+
+(* antisymmetric: cmp(b, a) = - cmp(a, b) *)
+Theorem C20_compare_antisym : forall a b : list Z, short_runs a -> short_runs b ->
+  exists c, compare_natural a b = Ok c /\ compare_natural b a = Ok (- c).
+Proof. exact compare_natural_antisym. Qed.
+Print Assumptions C20_compare_antisym.
+
+(* transitive: a <= b and b <= c give a <= c, and a ~ c only if a ~ b ~ c *)
+Theorem C20_compare_trans : forall a b c : list Z, short_runs a -> short_runs b -> short_runs c ->
+  exists x y z, compare_natural a b = Ok x /\ compare_natural b c = Ok y /\ compare_natural a c = Ok z /\
+    (x <= 0 -> y <= 0 -> z <= 0) /\ (x <= 0 -> y <= 0 -> z = 0 -> x = 0 /\ y = 0).
+Proof. exact compare_natural_trans. Qed.
+Print Assumptions C20_compare_trans.
+
+(* 0 exactly when the token keys coincide: the same bytes outside digit runs and digit runs of the
+   same numeric value *)
+Theorem C20_compare_zero : forall a b : list Z, short_runs a -> short_runs b ->
+  (compare_natural a b = Ok 0 <-> key a = key b).
+Proof. exact compare_natural_zero. Qed.
+Print Assumptions C20_compare_zero.
+
+(* numeric on digit runs: two non-empty strings of at most 18 digits compare as their values *)
+Theorem C20_compare_numeric : forall a b : list Z, a <> [] -> b <> [] ->
+  forallb digit a = true -> forallb digit b = true -> (length a <= 18)%nat -> (length b <= 18)%nat ->
+  compare_natural a b = Ok (sgn_cmp (dec_val a) (dec_val b)).
+Proof. exact compare_natural_numeric. Qed.
+Print Assumptions C20_compare_numeric.
+
+(* "a2b" < "a12b" < "a12c", "a007" ~ "a7", "12" < "a", "/" < "12" *)
+Example C20_compare_ex :
+  short_runs [97; 50; 98] /\ short_runs [97; 49; 50; 98] /\
+  compare_natural [97; 50; 98] [97; 49; 50; 98] = Ok (-1) /\
+  compare_natural [97; 49; 50; 98] [97; 49; 50; 99] = Ok (-1) /\
+  compare_natural [97; 48; 48; 55] [97; 55] = Ok 0 /\ key [97; 48; 48; 55] = key [97; 55] /\
+  compare_natural [49; 50] [97] = Ok (-1) /\ compare_natural [47] [49; 50] = Ok (-1).
+Proof. repeat split; vm_compute; reflexivity. Qed.
